@@ -126,6 +126,29 @@ def run_case(case):
                 if not (e <= TOL):
                     bad.append((ident + '/matrix-vs-chain', '%s on %s %r: matrix applied to a random field differs from the explicit chain (normalised %.3g)' % (ident, cls, meta['n'], e)))
             maxerr[ident] = e
+            if not bad and fv._xvalue.dtype.kind == 'f':
+                # (a) the coefficient object is edited IN PLACE (documented idiom: u.xvalue[:] = ..., D.xvalue[k:] = ...) and the
+                # operators are rebuilt from the same object: matrix and chain must still agree (no operator remembers a build);
+                # (b) two divergence results alive at the same time: the first one is unchanged by the second call
+                for a_ in gen.facevar_arrays(fv, g.nd):
+                    a_ *= -0.5            # zeros stay zeros (the separate upwind-direction field is zero only where u is)
+                full2, _ = gen.cell_field(rng, g.full_shape(), 'random')
+                phi2 = pf.CellVariable(m, full2.copy())
+                M2 = {'diffusion': pf.diffusionTerm, 'central': pf.convectionTerm}.get(ident, None)
+                M2 = M2(fv) if M2 is not None else (pf.convectionUpwindTerm(fv) if ident == 'upwind' else pf.convectionUpwindTerm(fv, up))
+                r1 = chain(phi2)
+                r1_copy = np.array(np.asarray(r1), copy=True)
+                other = pf.divergenceTerm(fv * pf.linearMean(pf.CellVariable(m, full2[::-1].copy() if g.nd == 1 else full2.copy() * 2.0 + 1.0)))
+                if not np.array_equal(np.asarray(r1), r1_copy):
+                    bad.append((ident + '/divergence-result-overwritten', 'divergenceTerm on %s: a result changed when divergenceTerm was called again (shared work array)' % cls))
+                A2 = interior_rows_dense(M2, g)
+                lhs = A2 @ full2.ravel()
+                sc2 = np.abs(A2) @ np.abs(full2.ravel())
+                e2 = nerr(lhs, r1_copy.ravel()[rows], sc2 + np.abs(r1_copy.ravel()[rows]))
+                maxerr[ident + '-after-inplace-edit'] = e2
+                cov['rebuild_after_inplace_edit'] = 1
+                if not (e2 <= TOL):
+                    bad.append((ident + '/stale-after-inplace-edit', '%s on %s %r: after an in-place edit of the coefficient object the rebuilt matrix and the explicit chain disagree (normalised %.3g)' % (ident, cls, meta['n'], e2)))
         elif ident == 'tvd-zero':
             bad_here = False
             for rep in range(3):
@@ -226,6 +249,8 @@ def floors(agg, tier):
         for ident in IDENTS + ['tvd-flux']:
             if agg['cov'].get('ident:%s:%s' % (ident, cls), 0) < 5:
                 out.append('ident:%s:%s < 5' % (ident, cls))
+    if agg['cov'].get('rebuild_after_inplace_edit', 0) < 300:
+        out.append('rebuild_after_inplace_edit < 300')
     if agg['cov'].get('ufam:int', 0) < 100:
         out.append('ufam:int < 100')
     for geo in ('nano', 'jitter', 'mega', 'int'):
